@@ -313,6 +313,13 @@ def main_wrapper(pid: str, fn):
     except MachineryError as e:
         print(f"ERROR machinery property={pid}: {e}", file=sys.stderr, flush=True)
         sys.exit(2)
+    except SystemExit:
+        raise
+    except BaseException as e:  # noqa: BLE001 - a crash of the harness is a machinery failure (2), never exit code 1
+        import traceback
+        traceback.print_exc()
+        print(f"ERROR machinery property={pid}: harness crashed: {type(e).__name__}: {e}", file=sys.stderr, flush=True)
+        sys.exit(2)
     finally:
         # scratch is removed at the end of a run
         if WORK.exists():
